@@ -117,3 +117,32 @@ func H_C12_stream_chunks(t *verifrt.T) {
 	t.Assert("second-value", s2 == string(b))
 	t.Assert("reader-data-unchanged", verifref.BytesEq(doc, src))
 }
+
+type vsTag struct {
+	S string `json:"s,string"`
+	N Number `json:"n,string"`
+}
+
+func init() {
+	VerifHarnesses["H_C12_stream_stringtag"] = H_C12_stream_stringtag
+}
+
+// `,string` members decoded by one Decoder from two documents: what the first
+// Decode returned keeps its bytes after the second Decode.
+func H_C12_stream_stringtag(t *verifrt.T) {
+	a, b := t.Byte("a"), t.Byte("b")
+	t.Assume(verifrt.And(a >= 'a', a <= 'z', b >= 'a', b <= 'z', a != b))
+	bs := byte('\\')
+	d1 := []byte{'{', '"', 's', '"', ':', '"', bs, '"', a, a, bs, '"', '"', ',', '"', 'n', '"', ':', '"', '1', '2', '"', '}'}
+	d2 := []byte{'{', '"', 's', '"', ':', '"', bs, '"', b, b, bs, '"', '"', ',', '"', 'n', '"', ':', '"', '3', '4', '"', '}'}
+	doc := append(append(append([]byte{}, d1...), ' '), d2...)
+	dec := NewDecoder(&c12Chunks{data: doc, cut: t.Choice("cut", len(doc)+1)})
+	var v1, v2 vsTag
+	err1 := dec.Decode(&v1)
+	keepS, keepN := string(append([]byte{}, v1.S...)), string(append([]byte{}, v1.N...))
+	err2 := dec.Decode(&v2)
+	t.Assert("both-decoded", verifrt.And(err1 == nil, err2 == nil))
+	t.Assert("first-values", verifrt.And(keepS == string([]byte{a, a}), keepN == "12"))
+	t.Assert("first-result-unchanged-by-second-decode", verifrt.And(v1.S == keepS, string(v1.N) == keepN))
+	t.Assert("second-values", verifrt.And(v2.S == string([]byte{b, b}), string(v2.N) == "34"))
+}
